@@ -2,6 +2,7 @@ package main
 
 import (
 	"bufio"
+	"encoding/json"
 	"fmt"
 	"os"
 	"strconv"
@@ -20,6 +21,20 @@ func init() {
 			src, err := strconv.Unquote(`"` + sc.Text() + `"`)
 			if err != nil {
 				src = sc.Text()
+			}
+			if src == "FORMS" { // every function body form: node kinds, value and text of f for def1 / def2
+				_ = extensions.Init(nil)
+				for _, fm := range c15FormNames() {
+					err := c15CheckForm(fm, nil)
+					o := c15ParseMode(c15FormSrc(fm, "f", "g", 10), false, true)
+					var tree any
+					_ = json.Unmarshal([]byte(o.Tree), &tree)
+					acc := map[string]bool{}
+					c15FormKinds(tree, false, acc)
+					w := c15RunInputs([]string{c15JoinStmts([]string{"g = 1", c15FormSrc(fm, "f", "g", 10), "println(f())", c15FormSrc(fm, "f", "g", 20), "println(f())", "println(f)"})}, false)
+					fmt.Printf("%-9s err=%v kinds=%v\n          out=%q %v %q\n", fm, err, sortedKeys(acc), w.Out, w.Err, w.ErrMsg)
+				}
+				continue
 			}
 			if strings.HasPrefix(src, "EVAL:") { // statements separated by " ;; ": whole vs one statement at a time
 				_ = extensions.Init(nil)
